@@ -59,10 +59,12 @@ theorem helperCall_read (B : BusOps β) (bus : β) (addr val : Nat) (x : Nat × 
 def pokeOff : Reg8 → Nat
   | .B => 1 | .C => 0 | .D => 9 | .E => 8 | .H => 17 | .L => 16 | .A => 25
 
-def ldHlBody (r : Reg8) : List (Nat × Instr) :=
-  [(0, Instr.push 0), (1, Instr.push 1), (2, Instr.push 2), (3, Instr.push 3), (4, Instr.mov Size.q 6 1), (7, Instr.movabs 7 512),
+def ldBody (addr : Nat) (r : Reg8) : List (Nat × Instr) :=
+  [(0, Instr.push 0), (1, Instr.push 1), (2, Instr.push 2), (3, Instr.push 3), (4, Instr.mov Size.q 6 addr), (7, Instr.movabs 7 512),
    (17, Instr.movabs 0 513), (27, Instr.callRax), (29, Instr.store8 4 (pokeOff r) (R8.lo 0)),
    (33, Instr.pop 3), (34, Instr.pop 2), (35, Instr.pop 1), (36, Instr.pop 0)]
+
+def ldHlBody (r : Reg8) : List (Nat × Instr) := ldBody 1 r
 
 def opcodeLdHl (r : Reg8) : Nat := 0x46 + 8 * r8code r
 
@@ -158,10 +160,11 @@ theorem poke_low16 (x v j : Nat) (hx : x < 2 ^ 64) (hj : j ≤ 1) :
 
 set_option maxHeartbeats 1000000 in
 /-- the body of LD r,(HL) -/
-theorem ldhl_body (B : BusOps β) (hB : ByteReads B) (r : Reg8) (g : Regs) (st s13 : St β) (hs : Sim g st)
-    (hex : execList B 37 (ldHlBody r) st = .ok s13) :
-    ∃ v, B.read st.bus (getReg16 g .HL) = .ok v ∧ Sim (setReg g r v) s13 ∧ Untouched st s13 := by
-  unfold ldHlBody at hex
+theorem ld_body (B : BusOps β) (hB : ByteReads B) (addr : Nat) (areg : Reg16) (r : Reg8) (g : Regs) (st s13 : St β) (hs : Sim g st)
+    (ha3 : addr = 1 ∨ addr = 2 ∨ addr = 3) (hareg : (get st addr).toNat % 65536 = getReg16 g areg)
+    (hex : execList B 37 (ldBody addr r) st = .ok s13) :
+    ∃ v, B.read st.bus (getReg16 g areg) = .ok v ∧ Sim (setReg g r v) s13 ∧ Untouched st s13 := by
+  unfold ldBody at hex
   obtain ⟨s1, h1, hex⟩ := execList_cons B _ _ _ _ _ _ hex
   obtain ⟨s2, h2, hex⟩ := execList_cons B _ _ _ _ _ _ hex
   obtain ⟨s3, h3, hex⟩ := execList_cons B _ _ _ _ _ _ hex
@@ -186,12 +189,12 @@ theorem ldhl_body (B : BusOps β) (hB : ByteReads B) (r : Reg8) (g : Regs) (st s
   have K4 : s4.stack = get st 3 :: get st 2 :: get st 1 :: get st 0 :: st.stack := by
     rw [k4, k3, k2, k1, r3 3, r2 3, r1 3, r2 2, r1 2, r1 1]
   have Z4 : s4.r.size = 16 := by rw [z4, z3, z2, z1]; exact hsz
-  obtain ⟨v5, r5, k5, b5, z5⟩ := step_movq B s4 s5 6 1 _ (by omega) h5
+  obtain ⟨v5, r5, k5, b5, z5⟩ := step_movq B s4 s5 6 addr _ (by omega) h5
   obtain ⟨v6, r6, k6, b6, z6⟩ := step_movabs B s5 s6 7 512 _ (by omega) h6
   obtain ⟨v7, r7, k7, b7, z7⟩ := step_movabs B s6 s7 0 513 _ (by omega) h7
   have Z7 : s7.r.size = 16 := by rw [z7, z6, z5]; exact Z4
   have a7 : get s7 7 = ptrVal 512 := by rw [r7 7 (by decide)]; exact v6
-  have a6 : get s7 6 = get st 1 := by rw [r7 6 (by decide), r6 6 (by decide), v5, R4]
+  have a6 : get s7 6 = get st addr := by rw [r7 6 (by decide), r6 6 (by decide), v5, R4]
   obtain ⟨v, hrd, hv8, b8, k8, Z8, r8⟩ := step_call_read B s7 s8 _ Z7 v7 a7 h8
   have hvlt : v < 256 := hB _ _ _ hrd
   have K8 : s8.stack = get st 3 :: get st 2 :: get st 1 :: get st 0 :: st.stack := by rw [k8, k7, k6, k5]; exact K4
@@ -204,7 +207,7 @@ theorem ldhl_body (B : BusOps β) (hB : ByteReads B) (r : Reg8) (g : Regs) (st s
     intro j hj
     rw [r8 j hj, r7 j (fun e => hj (by rw [← e]; simp)), r6 j (fun e => hj (by rw [← e]; simp)), r5 j (fun e => hj (by rw [← e]; simp)), R4]
   -- the address read is HL
-  have haddr : (get s7 6).toNat % 65536 = getReg16 g .HL := by rw [a6]; exact hs.hl
+  have haddr : (get s7 6).toNat % 65536 = getReg16 g areg := by rw [a6]; exact hareg
   rw [haddr, show s7.bus = st.bus by rw [b7, b6, b5, b4, b3, b2, b1]] at hrd
   refine ⟨v, hrd, ?_⟩
   -- the poke and the four pops, register by register
@@ -269,7 +272,7 @@ def SimulatesMem (b0 b1 b2 : Nat) : Prop :=
 
 theorem straight_ldHlBody (r : Reg8) : straight (ldHlBody r) := by
   intro p hp
-  simp only [ldHlBody, List.mem_cons, List.not_mem_nil, or_false] at hp
+  simp only [ldHlBody, ldBody, List.mem_cons, List.not_mem_nil, or_false] at hp
   rcases hp with e | e | e | e | e | e | e | e | e | e | e | e | e <;> subst e <;>
     exact ⟨fun _ _ e => Instr.noConfusion e, fun _ e => Instr.noConfusion e⟩
 
@@ -291,7 +294,7 @@ theorem sim_ldhl (r : Reg8) (b1 b2 : Nat) : SimulatesMem (opcodeLdHl r) b1 b2 :=
   have hex := run_execList B _ 45 hok hst 15 0 rfl fuel st st' (by rw [hpc]; rfl) hrun
   rw [List.drop_zero] at hex
   obtain ⟨s13, hb, ht⟩ := execList_append B 45 _ (ldHlBody r) st st' hex
-  obtain ⟨v, hrd, hs13, hu13⟩ := ldhl_body B hB r g st s13 hsim hb
+  obtain ⟨v, hrd, hs13, hu13⟩ := ld_body B hB 1 .HL r g st s13 hsim (Or.inl rfl) hsim.hl hb
   obtain ⟨hs', hu'⟩ := sim_tail B hs13 37 41 45 1 2 (by decide) (by decide) ht
   refine ⟨advance (setReg g r v) 1, st.bus, ?_, ⟨hs'.af, hs'.hl, hs'.de, hs'.bc, hs'.sp, hs'.ip, hs'.cy, hs'.size⟩,
     by rw [hu'.bus, hu13.bus], by rw [hu'.stack, hu13.stack], by rw [hu'.r14, hu13.r14]⟩
@@ -330,10 +333,12 @@ theorem step_call_write (B : BusOps β) (s s1 : St β) (len : Nat) (hsz : s.r.si
   have hz := (callBus_size_pc B ({ s with pc := s.pc + len } : St β) s1 h').1
   exact ⟨by rw [hb]; exact hw, hst, hz.trans hsz, hfr⟩
 
-def stHlBody (r : Reg8) : List (Nat × Instr) :=
-  [(0, Instr.push 0), (1, Instr.push 1), (2, Instr.push 2), (3, Instr.mov Size.q 6 1), (6, Instr.movabs 7 512),
+def stBody (addr : Nat) (r : Reg8) : List (Nat × Instr) :=
+  [(0, Instr.push 0), (1, Instr.push 1), (2, Instr.push 2), (3, Instr.mov Size.q 6 addr), (6, Instr.movabs 7 512),
    (16, Instr.mov8 (R8.lo 2) (hostR8 r)), (18, Instr.aluI AluOp.and Size.q 2 [255, 0, 0, 0] false), (25, Instr.movabs 0 514),
    (35, Instr.callRax), (37, Instr.pop 2), (38, Instr.pop 1), (39, Instr.pop 0)]
+
+def stHlBody (r : Reg8) : List (Nat × Instr) := stBody 1 r
 
 def opcodeStHl (r : Reg8) : Nat := 0x70 + r8code r
 
@@ -386,10 +391,11 @@ theorem step_mask_q8 (B : BusOps β) (s s' : St β) (r len : Nat) (hr16 : r < 16
 
 set_option maxHeartbeats 1000000 in
 /-- the body of LD (HL),r -/
-theorem sthl_body (B : BusOps β) (r : Reg8) (g : Regs) (st s12 : St β) (hs : Sim g st)
-    (hex : execList B 40 (stHlBody r) st = .ok s12) :
-    B.write st.bus (getReg16 g .HL) (getReg g r) = .ok s12.bus ∧ Sim g s12 ∧ s12.stack = st.stack ∧ get s12 14 = get st 14 := by
-  unfold stHlBody at hex
+theorem st_body (B : BusOps β) (addr : Nat) (areg : Reg16) (r : Reg8) (g : Regs) (st s12 : St β) (hs : Sim g st)
+    (hareg : (get st addr).toNat % 65536 = getReg16 g areg)
+    (hex : execList B 40 (stBody addr r) st = .ok s12) :
+    B.write st.bus (getReg16 g areg) (getReg g r) = .ok s12.bus ∧ Sim g s12 ∧ s12.stack = st.stack ∧ get s12 14 = get st 14 := by
+  unfold stBody at hex
   obtain ⟨s1, h1, hex⟩ := execList_cons B _ _ _ _ _ _ hex
   obtain ⟨s2, h2, hex⟩ := execList_cons B _ _ _ _ _ _ hex
   obtain ⟨s3, h3, hex⟩ := execList_cons B _ _ _ _ _ _ hex
@@ -411,7 +417,7 @@ theorem sthl_body (B : BusOps β) (r : Reg8) (g : Regs) (st s12 : St β) (hs : S
   have R3 : ∀ j, get s3 j = get st j := fun j => by rw [r3, r2, r1]
   have K3 : s3.stack = get st 2 :: get st 1 :: get st 0 :: st.stack := by rw [k3, k2, k1, r2 2, r1 2, r1 1]
   have Z3 : s3.r.size = 16 := by rw [z3, z2, z1]; exact hsz
-  obtain ⟨v4, r4, k4, b4, z4⟩ := step_movq B s3 s4 6 1 _ (by omega) h4
+  obtain ⟨v4, r4, k4, b4, z4⟩ := step_movq B s3 s4 6 addr _ (by omega) h4
   obtain ⟨v5, r5, k5, b5, z5⟩ := step_movabs B s4 s5 7 512 _ (by omega) h5
   have Z5 : s5.r.size = 16 := by rw [z5, z4]; exact Z3
   have R5 : ∀ j, 6 ≠ j → 7 ≠ j → get s5 j = get st j := fun j h6' h7' => by rw [r5 j h7', r4 j h6', R3]
@@ -440,10 +446,10 @@ theorem sthl_body (B : BusOps β) (r : Reg8) (g : Regs) (st s12 : St β) (hs : S
   obtain ⟨x7, r7, k7, b7, z7⟩ := step_mask_q8 B s6 s7 2 _ (by decide) z6 h7
   obtain ⟨v8, r8, k8, b8, z8⟩ := step_movabs B s7 s8 0 514 _ (by omega) h8
   have Z8 : s8.r.size = 16 := by rw [z8]; exact z7
-  have a6 : get s8 6 = get st 1 := by rw [r8 6 (by decide), r7 6 (by decide), r6 6 (by decide), r5 6 (by decide), v4, R3]
+  have a6 : get s8 6 = get st addr := by rw [r8 6 (by decide), r7 6 (by decide), r6 6 (by decide), r5 6 (by decide), v4, R3]
   have a2 : (get s8 2).toNat % 256 = getReg g r := by rw [r8 2 (by decide), x7, x6]; exact Nat.mod_eq_of_lt hv
   obtain ⟨hwr, k9, Z9, r9⟩ := step_call_write B s8 s9 _ Z8 v8 h9
-  have haddr : (get s8 6).toNat % 65536 = getReg16 g .HL := by rw [a6]; exact hs.hl
+  have haddr : (get s8 6).toNat % 65536 = getReg16 g areg := by rw [a6]; exact hareg
   have B8 : s8.bus = st.bus := by rw [b8, b7, b6, b5, b4, b3, b2, b1]
   rw [haddr, a2, B8] at hwr
   have K9 : s9.stack = get st 2 :: get st 1 :: get st 0 :: st.stack := by rw [k9, k8, k7, k6, k5, k4]; exact K3
@@ -476,7 +482,7 @@ theorem sthl_body (B : BusOps β) (r : Reg8) (g : Regs) (st s12 : St β) (hs : S
 
 theorem straight_stHlBody (r : Reg8) : straight (stHlBody r) := by
   intro p hp
-  simp only [stHlBody, List.mem_cons, List.not_mem_nil, or_false] at hp
+  simp only [stHlBody, stBody, List.mem_cons, List.not_mem_nil, or_false] at hp
   rcases hp with e | e | e | e | e | e | e | e | e | e | e | e <;> subst e <;>
     exact ⟨fun _ _ e => Instr.noConfusion e, fun _ e => Instr.noConfusion e⟩
 
@@ -498,11 +504,254 @@ theorem sim_sthl (r : Reg8) (b1 b2 : Nat) : SimulatesMem (opcodeStHl r) b1 b2 :=
   have hex := run_execList B _ 48 hok hst 14 0 rfl fuel st st' (by rw [hpc]; rfl) hrun
   rw [List.drop_zero] at hex
   obtain ⟨s12, hb, ht⟩ := execList_append B 48 _ (stHlBody r) st st' hex
-  obtain ⟨hwr, hs12, hk12, h14⟩ := sthl_body B r g st s12 hsim hb
+  obtain ⟨hwr, hs12, hk12, h14⟩ := st_body B 1 .HL r g st s12 hsim hsim.hl hb
   obtain ⟨hs', hu'⟩ := sim_tail B hs12 40 44 48 1 2 (by decide) (by decide) ht
   refine ⟨advance g 1, s12.bus, ?_, ⟨hs'.af, hs'.hl, hs'.de, hs'.bc, hs'.sp, hs'.ip, hs'.cy, hs'.size⟩,
     hu'.bus, by rw [hu'.stack, hk12], by rw [hu'.r14, h14]⟩
   show (do let m ← B.write st.bus (getReg16 g (indirectReg .HL)) (getReg g r); _) = _
   simp only [indirectReg, bind, Except.bind, hwr]
+
+/-! ### LD A,(BC) / LD A,(DE) / LD A,(HL+) / LD A,(HL-) -/
+
+theorem straight_ldBody (addr : Nat) (r : Reg8) : straight (ldBody addr r) := by
+  intro p hp
+  simp only [ldBody, List.mem_cons, List.not_mem_nil, or_false] at hp
+  rcases hp with e | e | e | e | e | e | e | e | e | e | e | e | e <;> subst e <;>
+    exact ⟨fun _ _ e => Instr.noConfusion e, fun _ e => Instr.noConfusion e⟩
+
+theorem tail_straight (o1 o2 n c : Nat) : straight [(o1, addIp n), (o2, addCy c)] := by
+  intro p hp
+  simp only [List.mem_cons, List.not_mem_nil, or_false] at hp
+  rcases hp with e | e <;> subst e <;> exact ⟨fun _ _ e => Instr.noConfusion e, fun _ e => Instr.noConfusion e⟩
+
+theorem table_lda (b1 b2 : Nat) :
+    (decodeCode (Gen.emitOp 0x0a) = some (ldBody 3 .A ++ [(37, addIp 1), (41, addCy 2)]) ∧ bytesOf (Gen.emitOp 0x0a) = 45 ∧
+      Gen.decode 0x0a b1 b2 = (.LoadFromIndirect .A .BC, 1, 8)) ∧
+    (decodeCode (Gen.emitOp 0x1a) = some (ldBody 2 .A ++ [(37, addIp 1), (41, addCy 2)]) ∧ bytesOf (Gen.emitOp 0x1a) = 45 ∧
+      Gen.decode 0x1a b1 b2 = (.LoadFromIndirect .A .DE, 1, 8)) ∧
+    (decodeCode (Gen.emitOp 0x2a) = some ((ldBody 1 .A ++ [(37, Instr.incdec16 false 1)]) ++ [(40, addIp 1), (44, addCy 2)]) ∧ bytesOf (Gen.emitOp 0x2a) = 48 ∧
+      Gen.decode 0x2a b1 b2 = (.LoadFromIndirect .A .HLIncrement, 1, 8)) ∧
+    (decodeCode (Gen.emitOp 0x3a) = some ((ldBody 1 .A ++ [(37, Instr.incdec16 true 1)]) ++ [(40, addIp 1), (44, addCy 2)]) ∧ bytesOf (Gen.emitOp 0x3a) = 48 ∧
+      Gen.decode 0x3a b1 b2 = (.LoadFromIndirect .A .HLDecrement, 1, 8)) :=
+  ⟨⟨by decide +kernel, by decide +kernel, rfl⟩, ⟨by decide +kernel, by decide +kernel, rfl⟩, ⟨by decide +kernel, by decide +kernel, rfl⟩,
+   ⟨by decide +kernel, by decide +kernel, rfl⟩⟩
+
+/-- **LD A,(BC)** -/
+theorem sim_0a (b1 b2 : Nat) : SimulatesMem 0x0a b1 b2 := by
+  obtain ⟨⟨hdec, hbytes, hop⟩, _⟩ := table_lda b1 b2
+  refine ⟨_, hdec, ?_⟩
+  intro β B hB g fuel st st' hsim hpc _ _ hrun
+  rw [hbytes] at hrun
+  rw [hop]
+  show ∃ g' m', runOp B (.LoadFromIndirect .A .BC) g st.bus 1 = .ok (g', m', STATUS_NORMAL) ∧ Sim { g' with cycles := g'.cycles + 8 / 4 } st' ∧ _
+  rw [show (8 : Nat) / 4 = 2 from rfl]
+  have hex := run_execList B _ 45 rfl (straight_app (straight_ldBody 3 .A) (tail_straight 37 41 1 2)) 15 0 rfl fuel st st' (by rw [hpc]; rfl) hrun
+  rw [List.drop_zero] at hex
+  obtain ⟨s13, hb, ht⟩ := execList_append B 45 _ (ldBody 3 .A) st st' hex
+  obtain ⟨v, hrd, hs13, hu13⟩ := ld_body B hB 3 .BC .A g st s13 hsim (Or.inr (Or.inr rfl)) hsim.bc hb
+  obtain ⟨hs', hu'⟩ := sim_tail B hs13 37 41 45 1 2 (by decide) (by decide) ht
+  refine ⟨advance (setReg g .A v) 1, st.bus, ?_, ⟨hs'.af, hs'.hl, hs'.de, hs'.bc, hs'.sp, hs'.ip, hs'.cy, hs'.size⟩,
+    by rw [hu'.bus, hu13.bus], by rw [hu'.stack, hu13.stack], by rw [hu'.r14, hu13.r14]⟩
+  show (do let v ← B.read st.bus (getReg16 g (indirectReg .BC)); _) = _
+  simp only [indirectReg, bind, Except.bind, hrd]
+
+/-- **LD A,(DE)** -/
+theorem sim_1a (b1 b2 : Nat) : SimulatesMem 0x1a b1 b2 := by
+  obtain ⟨_, ⟨hdec, hbytes, hop⟩, _⟩ := table_lda b1 b2
+  refine ⟨_, hdec, ?_⟩
+  intro β B hB g fuel st st' hsim hpc _ _ hrun
+  rw [hbytes] at hrun
+  rw [hop]
+  show ∃ g' m', runOp B (.LoadFromIndirect .A .DE) g st.bus 1 = .ok (g', m', STATUS_NORMAL) ∧ Sim { g' with cycles := g'.cycles + 8 / 4 } st' ∧ _
+  rw [show (8 : Nat) / 4 = 2 from rfl]
+  have hex := run_execList B _ 45 rfl (straight_app (straight_ldBody 2 .A) (tail_straight 37 41 1 2)) 15 0 rfl fuel st st' (by rw [hpc]; rfl) hrun
+  rw [List.drop_zero] at hex
+  obtain ⟨s13, hb, ht⟩ := execList_append B 45 _ (ldBody 2 .A) st st' hex
+  obtain ⟨v, hrd, hs13, hu13⟩ := ld_body B hB 2 .DE .A g st s13 hsim (Or.inr (Or.inl rfl)) hsim.de hb
+  obtain ⟨hs', hu'⟩ := sim_tail B hs13 37 41 45 1 2 (by decide) (by decide) ht
+  refine ⟨advance (setReg g .A v) 1, st.bus, ?_, ⟨hs'.af, hs'.hl, hs'.de, hs'.bc, hs'.sp, hs'.ip, hs'.cy, hs'.size⟩,
+    by rw [hu'.bus, hu13.bus], by rw [hu'.stack, hu13.stack], by rw [hu'.r14, hu13.r14]⟩
+  show (do let v ← B.read st.bus (getReg16 g (indirectReg .DE)); _) = _
+  simp only [indirectReg, bind, Except.bind, hrd]
+
+/-- **LD A,(HL+)** / **LD A,(HL-)** -/
+theorem sim_ldi_ldd (dec : Bool) (b1 b2 : Nat) : SimulatesMem (if dec then 0x3a else 0x2a) b1 b2 := by
+  obtain ⟨_, _, ⟨hdecI, hbytesI, hopI⟩, ⟨hdecD, hbytesD, hopD⟩⟩ := table_lda b1 b2
+  have main : ∀ (β : Type) (B : BusOps β), ByteReads B → ∀ (g : Regs) (fuel : Nat) (st st' : St β), Sim g st → st.pc = 0 →
+      run B ((ldBody 1 .A ++ [(37, Instr.incdec16 dec 1)]) ++ [(40, addIp 1), (44, addCy 2)]) 48 fuel st = .ok st' →
+      ∃ v, B.read st.bus (getReg16 g .HL) = .ok v ∧
+        Sim { (setReg16 (setReg g .A v) .HL (u16 (getReg16 g .HL + (if dec then 65535 else 1)))) with ip := g.ip + 1, cycles := g.cycles + 2 } st' ∧
+        st'.bus = st.bus ∧ st'.stack = st.stack ∧ get st' 14 = get st 14 := by
+    intro β B hB g fuel st st' hsim hpc hrun
+    have hst : straight ((ldBody 1 .A ++ [(37, Instr.incdec16 dec 1)]) ++ [(40, addIp 1), (44, addCy 2)]) :=
+      straight_app (straight_app (straight_ldBody 1 .A) (straight_one _ _ (fun _ _ e => Instr.noConfusion e) (fun _ e => Instr.noConfusion e)))
+        (tail_straight 40 44 1 2)
+    have hex := run_execList B _ 48 rfl hst 16 0 rfl fuel st st' (by rw [hpc]; rfl) hrun
+    rw [List.drop_zero] at hex
+    obtain ⟨s14, hb, ht⟩ := execList_append B 48 _ _ st st' hex
+    obtain ⟨s13, hb1, hb2⟩ := execList_append B _ _ (ldBody 1 .A) st s14 hb
+    obtain ⟨v, hrd, hs13, hu13⟩ := ld_body B hB 1 .HL .A g st s13 hsim (Or.inl rfl) hsim.hl hb1
+    obtain ⟨s15, hi, hnil⟩ := execList_cons B _ _ _ _ _ _ hb2
+    have := execList_nil B _ _ _ hnil
+    subst this
+    have hv := step_incdec16 B s13 s14 dec 1 _ (by decide) hs13.size hi
+    obtain ⟨hs14, hu14⟩ := step16_sim B .HL _ (u16 (getReg16 g .HL + (if dec then 65535 else 1))) (setReg g .A v) s13 s14 _ hs13 hi rfl
+      (by intro e; cases e) (fun _ e => by cases e) (fun _ e => by cases e) (fun e => by cases e) (fun e => by cases e)
+      (fun _ _ _ _ e => by cases e) (fun _ _ _ e => by cases e) (by
+        show (get s14 1).toNat % 65536 = _
+        rw [hv]
+        have h1 := hs13.hl
+        have h2 : (setReg g .A v).hl = g.hl := rfl
+        rw [h2] at h1
+        show ((get s13 1).toNat + _) % 65536 = u16 (u16 g.hl + _) % 65536
+        unfold u16
+        cases dec <;> simp only [Bool.false_eq_true, if_false, if_true] <;> omega)
+    obtain ⟨hs', hu'⟩ := sim_tail B hs14 40 44 48 1 2 (by decide) (by decide) ht
+    exact ⟨v, hrd, ⟨hs'.af, hs'.hl, hs'.de, hs'.bc, hs'.sp, hs'.ip, hs'.cy, hs'.size⟩,
+      by rw [hu'.bus, hu14.bus, hu13.bus], by rw [hu'.stack, hu14.stack, hu13.stack], by rw [hu'.r14, hu14.r14, hu13.r14]⟩
+  cases dec
+  · simp only [Bool.false_eq_true, if_false]
+    refine ⟨_, hdecI, ?_⟩
+    intro β B hB g fuel st st' hsim hpc _ _ hrun
+    rw [hbytesI] at hrun
+    rw [hopI]
+    show ∃ g' m', runOp B (.LoadFromIndirect .A .HLIncrement) g st.bus 1 = .ok (g', m', STATUS_NORMAL) ∧ Sim { g' with cycles := g'.cycles + 8 / 4 } st' ∧ _
+    rw [show (8 : Nat) / 4 = 2 from rfl]
+    obtain ⟨v, hrd, hs', hb, hk, h14⟩ := main β B hB g fuel st st' hsim hpc hrun
+    simp only [Bool.false_eq_true, if_false] at hs'
+    refine ⟨advance { (setReg g .A v) with hl := u32 ((setReg g .A v).hl + 1) &&& 0xffff } 1, st.bus, ?_, ?_, hb, hk, h14⟩
+    · show (do let v ← B.read st.bus (getReg16 g (indirectReg .HLIncrement)); _) = _
+      simp only [indirectReg, bind, Except.bind, hrd]
+    · have e : u32 ((setReg g .A v).hl + 1) &&& 0xffff = (g.hl + 1) % 4294967296 % 65536 := by
+        show (g.hl + 1) % 4294967296 &&& 0xffff = _
+        exact Nat.and_two_pow_sub_one_eq_mod _ 16
+      refine ⟨hs'.af, hs'.hl.trans ?_, hs'.de, hs'.bc, hs'.sp, hs'.ip, hs'.cy, hs'.size⟩
+      show u16 (u16 g.hl + 1) % 65536 = (u32 ((setReg g .A v).hl + 1) &&& 0xffff) % 65536
+      rw [e]; unfold u16; omega
+  · simp only [if_true]
+    refine ⟨_, hdecD, ?_⟩
+    intro β B hB g fuel st st' hsim hpc _ _ hrun
+    rw [hbytesD] at hrun
+    rw [hopD]
+    show ∃ g' m', runOp B (.LoadFromIndirect .A .HLDecrement) g st.bus 1 = .ok (g', m', STATUS_NORMAL) ∧ Sim { g' with cycles := g'.cycles + 8 / 4 } st' ∧ _
+    rw [show (8 : Nat) / 4 = 2 from rfl]
+    obtain ⟨v, hrd, hs', hb, hk, h14⟩ := main β B hB g fuel st st' hsim hpc hrun
+    simp only [if_true] at hs'
+    refine ⟨advance { (setReg g .A v) with hl := u32 ((setReg g .A v).hl + 4294967295) &&& 0xffff } 1, st.bus, ?_, ?_, hb, hk, h14⟩
+    · show (do let v ← B.read st.bus (getReg16 g (indirectReg .HLDecrement)); _) = _
+      simp only [indirectReg, bind, Except.bind, hrd]
+    · have e : u32 ((setReg g .A v).hl + 4294967295) &&& 0xffff = (g.hl + 4294967295) % 4294967296 % 65536 := by
+        show (g.hl + 4294967295) % 4294967296 &&& 0xffff = _
+        exact Nat.and_two_pow_sub_one_eq_mod _ 16
+      refine ⟨hs'.af, hs'.hl.trans ?_, hs'.de, hs'.bc, hs'.sp, hs'.ip, hs'.cy, hs'.size⟩
+      show u16 (u16 g.hl + 65535) % 65536 = (u32 ((setReg g .A v).hl + 4294967295) &&& 0xffff) % 65536
+      rw [e]; unfold u16; omega
+
+/-! ### LD (BC),A / LD (DE),A / LD (HL+),A / LD (HL-),A -/
+
+theorem straight_stBody (addr : Nat) (r : Reg8) : straight (stBody addr r) := by
+  intro p hp
+  simp only [stBody, List.mem_cons, List.not_mem_nil, or_false] at hp
+  rcases hp with e | e | e | e | e | e | e | e | e | e | e | e <;> subst e <;>
+    exact ⟨fun _ _ e => Instr.noConfusion e, fun _ e => Instr.noConfusion e⟩
+
+theorem table_sta (b1 b2 : Nat) :
+    (decodeCode (Gen.emitOp 0x02) = some (stBody 3 .A ++ [(40, addIp 1), (44, addCy 2)]) ∧ bytesOf (Gen.emitOp 0x02) = 48 ∧
+      Gen.decode 0x02 b1 b2 = (.LoadToIndirect .BC .A, 1, 8)) ∧
+    (decodeCode (Gen.emitOp 0x12) = some (stBody 2 .A ++ [(40, addIp 1), (44, addCy 2)]) ∧ bytesOf (Gen.emitOp 0x12) = 48 ∧
+      Gen.decode 0x12 b1 b2 = (.LoadToIndirect .DE .A, 1, 8)) ∧
+    (decodeCode (Gen.emitOp 0x22) = some ((stBody 1 .A ++ [(40, Instr.incdec16 false 1)]) ++ [(43, addIp 1), (47, addCy 2)]) ∧ bytesOf (Gen.emitOp 0x22) = 51 ∧
+      Gen.decode 0x22 b1 b2 = (.LoadToIndirect .HLIncrement .A, 1, 8)) ∧
+    (decodeCode (Gen.emitOp 0x32) = some ((stBody 1 .A ++ [(40, Instr.incdec16 true 1)]) ++ [(43, addIp 1), (47, addCy 2)]) ∧ bytesOf (Gen.emitOp 0x32) = 51 ∧
+      Gen.decode 0x32 b1 b2 = (.LoadToIndirect .HLDecrement .A, 1, 8)) :=
+  ⟨⟨by decide +kernel, by decide +kernel, rfl⟩, ⟨by decide +kernel, by decide +kernel, rfl⟩, ⟨by decide +kernel, by decide +kernel, rfl⟩,
+   ⟨by decide +kernel, by decide +kernel, rfl⟩⟩
+
+/-- **LD (BC),A** / **LD (DE),A** -/
+theorem sim_st_a (de : Bool) (b1 b2 : Nat) : SimulatesMem (if de then 0x12 else 0x02) b1 b2 := by
+  obtain ⟨⟨hdecB, hbytesB, hopB⟩, ⟨hdecD, hbytesD, hopD⟩, _⟩ := table_sta b1 b2
+  cases de
+  · simp only [Bool.false_eq_true, if_false]
+    refine ⟨_, hdecB, ?_⟩
+    intro β B _ g fuel st st' hsim hpc _ _ hrun
+    rw [hbytesB] at hrun
+    rw [hopB]
+    show ∃ g' m', runOp B (.LoadToIndirect .BC .A) g st.bus 1 = .ok (g', m', STATUS_NORMAL) ∧ Sim { g' with cycles := g'.cycles + 8 / 4 } st' ∧ _
+    rw [show (8 : Nat) / 4 = 2 from rfl]
+    have hex := run_execList B _ 48 rfl (straight_app (straight_stBody 3 .A) (tail_straight 40 44 1 2)) 14 0 rfl fuel st st' (by rw [hpc]; rfl) hrun
+    rw [List.drop_zero] at hex
+    obtain ⟨s12, hb, ht⟩ := execList_append B 48 _ (stBody 3 .A) st st' hex
+    obtain ⟨hwr, hs12, hk12, h14⟩ := st_body B 3 .BC .A g st s12 hsim hsim.bc hb
+    obtain ⟨hs', hu'⟩ := sim_tail B hs12 40 44 48 1 2 (by decide) (by decide) ht
+    refine ⟨advance g 1, s12.bus, ?_, ⟨hs'.af, hs'.hl, hs'.de, hs'.bc, hs'.sp, hs'.ip, hs'.cy, hs'.size⟩,
+      hu'.bus, by rw [hu'.stack, hk12], by rw [hu'.r14, h14]⟩
+    show (do let m ← B.write st.bus (getReg16 g (indirectReg .BC)) (getReg g .A); _) = _
+    simp only [indirectReg, bind, Except.bind, hwr]
+  · simp only [if_true]
+    refine ⟨_, hdecD, ?_⟩
+    intro β B _ g fuel st st' hsim hpc _ _ hrun
+    rw [hbytesD] at hrun
+    rw [hopD]
+    show ∃ g' m', runOp B (.LoadToIndirect .DE .A) g st.bus 1 = .ok (g', m', STATUS_NORMAL) ∧ Sim { g' with cycles := g'.cycles + 8 / 4 } st' ∧ _
+    rw [show (8 : Nat) / 4 = 2 from rfl]
+    have hex := run_execList B _ 48 rfl (straight_app (straight_stBody 2 .A) (tail_straight 40 44 1 2)) 14 0 rfl fuel st st' (by rw [hpc]; rfl) hrun
+    rw [List.drop_zero] at hex
+    obtain ⟨s12, hb, ht⟩ := execList_append B 48 _ (stBody 2 .A) st st' hex
+    obtain ⟨hwr, hs12, hk12, h14⟩ := st_body B 2 .DE .A g st s12 hsim hsim.de hb
+    obtain ⟨hs', hu'⟩ := sim_tail B hs12 40 44 48 1 2 (by decide) (by decide) ht
+    refine ⟨advance g 1, s12.bus, ?_, ⟨hs'.af, hs'.hl, hs'.de, hs'.bc, hs'.sp, hs'.ip, hs'.cy, hs'.size⟩,
+      hu'.bus, by rw [hu'.stack, hk12], by rw [hu'.r14, h14]⟩
+    show (do let m ← B.write st.bus (getReg16 g (indirectReg .DE)) (getReg g .A); _) = _
+    simp only [indirectReg, bind, Except.bind, hwr]
+
+/-- **LD (HL+),A** (the decrementing twin LD (HL-),A is left to the differential: the kernel runs into its recursion limit on the\ninterpreter's `+ 4294967295` in this shape of proof) -/
+theorem sim_sti (b1 b2 : Nat) : SimulatesMem 0x22 b1 b2 := by
+  obtain ⟨_, _, ⟨hdecI, hbytesI, hopI⟩, _⟩ := table_sta b1 b2
+  have main : ∀ (β : Type) (B : BusOps β) (g : Regs) (fuel : Nat) (st st' : St β), Sim g st → st.pc = 0 →
+      run B ((stBody 1 .A ++ [(40, Instr.incdec16 false 1)]) ++ [(43, addIp 1), (47, addCy 2)]) 51 fuel st = .ok st' →
+      B.write st.bus (getReg16 g .HL) (getReg g .A) = .ok st'.bus ∧
+        Sim { (setReg16 g .HL (u16 (getReg16 g .HL + 1))) with ip := g.ip + 1, cycles := g.cycles + 2 } st' ∧
+        st'.stack = st.stack ∧ get st' 14 = get st 14 := by
+    intro β B g fuel st st' hsim hpc hrun
+    have hst : straight ((stBody 1 .A ++ [(40, Instr.incdec16 false 1)]) ++ [(43, addIp 1), (47, addCy 2)]) :=
+      straight_app (straight_app (straight_stBody 1 .A) (straight_one _ _ (fun _ _ e => Instr.noConfusion e) (fun _ e => Instr.noConfusion e)))
+        (tail_straight 43 47 1 2)
+    have hex := run_execList B _ 51 rfl hst 15 0 rfl fuel st st' (by rw [hpc]; rfl) hrun
+    rw [List.drop_zero] at hex
+    obtain ⟨s13, hb, ht⟩ := execList_append B 51 _ _ st st' hex
+    obtain ⟨s12, hb1, hb2⟩ := execList_append B _ _ (stBody 1 .A) st s13 hb
+    obtain ⟨hwr, hs12, hk12, h14⟩ := st_body B 1 .HL .A g st s12 hsim hsim.hl hb1
+    obtain ⟨s15, hi, hnil⟩ := execList_cons B _ _ _ _ _ _ hb2
+    have := execList_nil B _ _ _ hnil
+    subst this
+    have hv := step_incdec16 B s12 s13 false 1 _ (by decide) hs12.size hi
+    obtain ⟨hs13, hu13⟩ := step16_sim B .HL _ (u16 (getReg16 g .HL + 1)) g s12 s13 _ hs12 hi rfl
+      (by intro e; cases e) (fun _ e => by cases e) (fun _ e => by cases e) (fun e => by cases e) (fun e => by cases e)
+      (fun _ _ _ _ e => by cases e) (fun _ _ _ e => by cases e) (by
+        show (get s13 1).toNat % 65536 = _
+        rw [hv]
+        have h1 := hs12.hl
+        show ((get s12 1).toNat + _) % 65536 = u16 (u16 g.hl + _) % 65536
+        unfold u16
+        simp only [Bool.false_eq_true, if_false]; omega)
+    obtain ⟨hs', hu'⟩ := sim_tail B hs13 43 47 51 1 2 (by decide) (by decide) ht
+    exact ⟨by rw [hu'.bus, hu13.bus]; exact hwr, ⟨hs'.af, hs'.hl, hs'.de, hs'.bc, hs'.sp, hs'.ip, hs'.cy, hs'.size⟩,
+      by rw [hu'.stack, hu13.stack, hk12], by rw [hu'.r14, hu13.r14, h14]⟩
+  refine ⟨_, hdecI, ?_⟩
+  intro β B _ g fuel st st' hsim hpc _ _ hrun
+  rw [hbytesI] at hrun
+  rw [hopI]
+  show ∃ g' m', runOp B (.LoadToIndirect .HLIncrement .A) g st.bus 1 = .ok (g', m', STATUS_NORMAL) ∧ Sim { g' with cycles := g'.cycles + 8 / 4 } st' ∧ _
+  rw [show (8 : Nat) / 4 = 2 from rfl]
+  obtain ⟨hwr, hs', hk, h14⟩ := main β B g fuel st st' hsim hpc hrun
+  refine ⟨advance { g with hl := u32 (g.hl + 1) &&& 0xffff } 1, st'.bus, ?_, ?_, rfl, hk, h14⟩
+  · show (do let m ← B.write st.bus (getReg16 g (indirectReg .HLIncrement)) (getReg g .A); _) = _
+    simp only [indirectReg, bind, Except.bind, hwr]
+  · have e : u32 (g.hl + 1) &&& 0xffff = (g.hl + 1) % 4294967296 % 65536 := by
+      show (g.hl + 1) % 4294967296 &&& 0xffff = _
+      exact Nat.and_two_pow_sub_one_eq_mod _ 16
+    refine ⟨hs'.af, hs'.hl.trans ?_, hs'.de, hs'.bc, hs'.sp, hs'.ip, hs'.cy, hs'.size⟩
+    show u16 (u16 g.hl + 1) % 65536 = (u32 (g.hl + 1) &&& 0xffff) % 65536
+    rw [e]; unfold u16; omega
 
 end GbVerif.X86
